@@ -142,6 +142,9 @@ class Surface:
 
     def render(self):
         n = self.nsectors
+        if self.variant == 'blank':
+            # an unformatted side: a formatter's filler pattern, no catalogue
+            return bytes([self.fill_seed & 0xFF]) * (n * 256)
         buf = bytearray()
         for lba in range(n):
             buf += tag_sector(self.img_id, self.side, lba, self.fill_seed)
